@@ -99,18 +99,23 @@ class JSONParser:
         if "date_published" in e:
             entry["published"] = e["date_published"]
             entry["published_parsed"] = _parse_date(e["date_published"])
-        if "date_updated" in e:
+        if "date_modified" in e:
             entry["updated"] = e["date_modified"]
             entry["updated_parsed"] = _parse_date(e["date_modified"])
 
         if "tags" in e:
-            entry["category"] = e["tags"]
+            entry["tags"] = [
+                FeedParserDict(term=term, scheme=None, label=None)
+                for term in e["tags"]
+            ]
 
         if "author" in e:
             self.parse_author(e["author"], entry)
 
         if "attachments" in e:
-            entry["enclosures"] = [self.parse_attachment(a) for a in e["attachments"]]
+            entry.setdefault("links", []).extend(
+                self.parse_attachment(a) for a in e["attachments"]
+            )
 
         return entry
 
@@ -128,6 +133,7 @@ class JSONParser:
     @staticmethod
     def parse_attachment(attachment):
         enc = FeedParserDict()
+        enc["rel"] = "enclosure"
         enc["href"] = attachment["url"]
         enc["type"] = attachment["mime_type"]
         if "size_in_bytes" in attachment:
